@@ -11,6 +11,8 @@ package bexpr
 //go:generate goimports -w grammar/grammar.go
 
 import (
+	"regexp"
+
 	"github.com/hashicorp/go-bexpr/grammar"
 	"github.com/mitchellh/pointerstructure"
 )
@@ -45,6 +47,7 @@ func CreateEvaluator(expression string, opts ...Option) (*Evaluator, error) {
 	if err != nil {
 		return nil, err
 	}
+	compileRegexps(ast.(grammar.Expression))
 
 	eval := &Evaluator{
 		ast:                     ast.(grammar.Expression),
@@ -55,6 +58,31 @@ func CreateEvaluator(expression string, opts ...Option) (*Evaluator, error) {
 	}
 
 	return eval, nil
+}
+
+// compileRegexps compiles the regular expressions of all matches / not matches
+// operators up front, so that evaluation never has to write to the syntax tree
+// and an Evaluator can be shared between goroutines. Expressions that do not
+// compile are left alone and reported when they are evaluated.
+func compileRegexps(ast grammar.Expression) {
+	switch node := ast.(type) {
+	case *grammar.UnaryExpression:
+		compileRegexps(node.Operand)
+	case *grammar.BinaryExpression:
+		compileRegexps(node.Left)
+		compileRegexps(node.Right)
+	case *grammar.CollectionExpression:
+		compileRegexps(node.Inner)
+	case *grammar.MatchExpression:
+		if node.Value == nil {
+			return
+		}
+		if node.Operator == grammar.MatchMatches || node.Operator == grammar.MatchNotMatches {
+			if re, err := regexp.Compile(node.Value.Raw); err == nil {
+				node.Value.Converted = re
+			}
+		}
+	}
 }
 
 // Evaluate attempts to match the configured expression against the supplied datum.
